@@ -8,6 +8,7 @@ import DG.Reload
 import DG.JsrProto
 import DG.ModInfoProto
 import DG.TextPos
+import DG.Exports
 /-! Line-protocol driver: one request per line on stdin, one answer per line on stdout. -/
 open DG DG.Sexp
 
@@ -227,6 +228,19 @@ def handle (st : DState) (req : Sexp) : DState × String :=
         | some r => s!"{r.s.line}:{r.s.char}-{r.e.line}:{r.e.char}"
         | none => "none")
     | _, _, _, _ => (st, "bad-op")
+  | .list [.atom "sym-exports", .list (.atom "mods" :: ms), m] =>
+    let mod? : Sexp → Option DG.Sym.Mod := fun
+      | .list [.list (.atom "own" :: o), .list (.atom "stars" :: ss)] => do
+        let own ← nats? o
+        let stars ← ss.mapM fun
+          | .atom "-" => some (none : Option Nat)
+          | x => (nat? x).map some
+        pure { own := own, stars := stars }
+      | _ => none
+    match ms.mapM mod?, nat? m with
+    | some w, some m =>
+      (st, joinSp (((DG.Sym.exportsOf w m).map fun (n, p) => s!"{n}@{p}")))
+    | _, _ => (st, "bad-op")
   | .list [.atom "valid"] =>
     (st, match st.graph.valid with | some e => e.show | none => "ok")
   | _ => (st, "bad-op")
